@@ -163,10 +163,10 @@ def run(prop, args):
     res = R.pmap(_group, jobs, chunksize=2)
     NS = 12 if tier == "quick" else 24
     sjobs = [(n, tr, ram, s - ram, st) for n in range(3, NS + 1) for tr in ("maximum", "revolve") for s in range(2, 6) for ram in range(1, s)
-             for st in ("kw", "kwr", "dflt") if s - ram != ram or st != "kwr"]
+             for st in ("kw", "kwr", "pkr", "dflt")]
     res += R.pmap(_styled, sjobs, chunksize=8)
     rep.exhaustive = [{"box": "n<=%d, both trajectories, every total s in 1..n+1, every split of s; then n<=%d with totals 2..%d, every split" % (NB, NB2, SB2), "cases": nbox, "exhaustive": True},
-                      {"box": "mixed splits built in other call styles (keywords in documented and in reverse order, defaults omitted): n in 3..%d, totals 2..5, both trajectories" % (12 if tier == "quick" else 24), "cases": 0, "exhaustive": True}]
+                      {"box": "mixed splits built in other call styles (keywords in documented and in reverse order, first argument positional and the rest by keyword in reverse order, defaults omitted): n in 3..%d, totals 2..5, both trajectories" % (12 if tier == "quick" else 24), "cases": 0, "exhaustive": True}]
     rep.exhaustive[-1]["cases"] = len(sjobs)
     rep.extra["groups"] = len(jobs)
     for mem in res:
